@@ -381,7 +381,7 @@ def run(tier):
         "samples": [{"program": next(p["origin"] for p in programs if p["id"] == h["pid"]),
                      "steps": [{"kind": r["kind"], "site": r["site"], "front": r["front"], "errorCount": r["errorCount"]} for r in h["rows"]]}
                     for h in sample_h],
-        "programs": {"total": len(programs), "histories_by_original_verdict": fronts,
+        "program_census": {"total": len(programs), "histories_by_original_verdict": fronts,
                      "rewriter_census": {k: census[k] for k in ("programs", "unparseable", "frontend_crashed", "histories", "steps")}},
         "per_kind": per_kind,
         "chain_lengths": {str(k): v for k, v in sorted(chains.items())},
